@@ -68,7 +68,16 @@ func c19(c *engine.Ctx) {
 				}
 			case n == "builtin.panic":
 			default:
-				others++
+				// calls that only build the panic value (fmt.Sprintf, errors.New…) are fine
+				inPanic := false
+				for _, ps := range f.CallsTo("builtin.panic") {
+					if containsExpr(ps.Call, s.Call) {
+						inPanic = true
+					}
+				}
+				if !inPanic {
+					others++
+				}
 			}
 		}
 		okHelper, why := false, "no call to "+P+pr.name
@@ -240,7 +249,7 @@ func c19(c *engine.Ctx) {
 							continue
 						}
 						all := true
-						for _, d := range engine.Conjuncts(gt.Cond, token.LOR) {
+						for _, d := range engine.Conjuncts(gt.Full(), token.LOR) {
 							x, op, y, isCmp := authdCmp(authdFact{E: d})
 							if !isCmp || op != token.EQL {
 								all = false
